@@ -262,7 +262,10 @@ def run_case(facet: Facet, case, limit=None):
             raise Violation(
                 f"did not run to completion within {limit:.0f}s of CPU time (watchdog)", timeout=True
             )
-        raise HarnessProblem(f"watchdog expired ({limit}s) in facet {facet.name}: inconclusive")
+        # A budget hit is inconclusive, never a violation and never a reason to call the check broken: the case is counted
+        # (class `watchdog_inconclusive` in the evidence) and the search goes on. (Raising here made Hypothesis re-run the
+        # case, which then finished in time on a less busy machine - reported as a flaky harness error.)
+        return {"nontrivial": False, "classes": ["watchdog_inconclusive"]}
     finally:
         signal.setitimer(signal.ITIMER_REAL, 0)
         signal.signal(signal.SIGALRM, old)
